@@ -9,8 +9,8 @@
 (* feature key of a switch is its own name.  Option names the real backend  *)
 (* lists in `-h` at run time but which are not in the transcription are     *)
 (* documented by `-h` as boolean switches ("(Enabled by default)" marks a   *)
-(* default of true); they extend Doc (EDoc) so that a newly added option is *)
-(* judged like any other.                                                   *)
+(* default of true); they extend Doc (HelpOnly) so that a newly added       *)
+(* option is judged like any other.                                         *)
 (*                                                                          *)
 (* The abstract machine: starting from the documented defaults, the options *)
 (* of a list are applied ONE AT A TIME IN ANY ORDER -- the final state is   *)
